@@ -27,37 +27,8 @@ VARIABLES l,      \* number of records consumed
 vars == <<l, st, gh, tr>>
 
 -----------------------------------------------------------------------------
-(* JSON projection -> abstract state *)
-AmtMap(sq) == [a \in {sq[i].a : i \in DOMAIN sq} |-> (CHOOSE i \in DOMAIN sq : sq[i].a = a) ]
-Amts(sq) == LET nz == {i \in DOMAIN sq : sq[i].x # "0"} IN [a \in {sq[i].a : i \in nz} |-> sq[CHOOSE i \in nz : sq[i].a = a].x]
-HistMap(sq) == [k \in {<<sq[i].al, sq[i].rd>> : i \in DOMAIN sq} |-> sq[CHOOSE i \in DOMAIN sq : <<sq[i].al, sq[i].rd>> = k].idx]
-ByKey(sq, key(_), val(_)) == [k \in {key(sq[i]) : i \in DOMAIN sq} |-> val(sq[CHOOSE i \in DOMAIN sq : key(sq[i]) = k])]
-
-Norm(j) ==
-  [ now |-> j.now, height |-> j.height,
-    params |-> [delay |-> j.params.delay, interval |-> j.params.interval, last |-> j.params.last],
-    assets |-> ByKey(j.assets, LAMBDA r : r.a,
-                     LAMBDA r : [weight |-> r.weight, wmin |-> r.wmin, wmax |-> r.wmax, take |-> r.take, total |-> r.total,
-                                 vshares |-> r.vshares, start |-> r.start, rate |-> r.rate, chgInt |-> r.chgInt,
-                                 lastChg |-> r.lastChg, init |-> r.init]),
-    vals |-> ByKey(j.vals, LAMBDA r : r.v, LAMBDA r : [vshares |-> Amts(r.vshares), dshares |-> Amts(r.dshares), hist |-> HistMap(r.hist)]),
-    dels |-> ByKey(j.dels, LAMBDA r : <<r.d, r.v, r.a>>, LAMBDA r : [shares |-> r.shares, hist |-> HistMap(r.hist), lastH |-> r.lastH]),
-    bals |-> ByKey(j.dels, LAMBDA r : <<r.d, r.v, r.a>>, LAMBDA r : r.bal),
-    unbQ |-> ByKey(j.unbQ, LAMBDA r : <<r.t, r.d>>, LAMBDA r : [i \in DOMAIN r.entries |-> [d |-> r.entries[i].d, v |-> r.entries[i].v, a |-> r.entries[i].a, bal |-> r.entries[i].bal]]),
-    unbIdx |-> {<<j.unbIdx[i].v, j.unbIdx[i].t, j.unbIdx[i].a, j.unbIdx[i].d>> : i \in DOMAIN j.unbIdx},
-    redRec |-> ByKey(j.redRec, LAMBDA r : <<r.d, r.a, r.dst, r.t>>, LAMBDA r : [d |-> r.rd, src |-> r.src, dst |-> r.rdst, a |-> r.ra, bal |-> r.bal]),
-    redIdx |-> {<<j.redIdx[i].src, j.redIdx[i].t, j.redIdx[i].a, j.redIdx[i].dst, j.redIdx[i].d>> : i \in DOMAIN j.redIdx},
-    redQ |-> ByKey(j.redQ, LAMBDA r : r.t, LAMBDA r : [i \in DOMAIN r.entries |-> [d |-> r.entries[i].d, src |-> r.entries[i].src, dst |-> r.entries[i].dst, a |-> r.entries[i].a, bal |-> r.entries[i].bal]]),
-    flag |-> j.flag,
-    snaps |-> ByKey(j.snaps, LAMBDA r : <<r.a, r.v, r.h>>, LAMBDA r : [prevW |-> r.prevW, hist |-> HistMap(r.hist)]),
-    bank |-> [custody |-> Amts(j.bank.custody), rewards |-> Amts(j.bank.rewards), fee |-> Amts(j.bank.fee),
-              users |-> ByKey(j.bank.users, LAMBDA r : r.d, LAMBDA r : Amts(r.coins)),
-              supplyBond |-> j.bank.supplyBond, donated |-> Amts(j.bank.donated)],
-    env |-> [unbonding |-> j.env.unbonding, totalBonded |-> j.env.totalBonded,
-             vals |-> ByKey(j.env.vals, LAMBDA r : r.v,
-                            LAMBDA r : [status |-> r.status, jailed |-> r.jailed, tokens |-> r.tokens, dshares |-> r.dshares,
-                                        modShares |-> r.modShares, hasMod |-> r.hasMod, pending |-> Amts(r.pending)])],
-    invBroken |-> j.invBroken ]
+(* JSON projection -> abstract state: NormState in AllianceProps *)
+Norm(j) == NormState(j)
 
 EmptyState == [now |-> 0]
 
@@ -107,6 +78,7 @@ Expected(pre, rec, post) ==
         [] ev = "GovDelete" -> GovDelete(pre, e)
         [] ev = "GovParams" -> GovParams(pre, e, FixF1)
         [] ev = "ExportImport" -> Ok(Reimport(pre, FixF7))
+        [] ev = "ForkImport" -> Ok(pre)          \* the trace continues on the original state; the re-imported sibling is rec.mirror
         [] OTHER -> Ok(pre)
 
 EnvEvents == {"StakingEndBlock", "NativeDelegate", "NativeUndelegate", "Unjail", "Accrue", "AccrueFees", "RealSlash"}
@@ -122,7 +94,7 @@ DriftOf(pre, rec, post) ==
       f2 == {f \in BankFields : es.bank[f] # post.bank[f]}
       f3 == IF rec.ev \in EnvEvents \/ rec.ev = "EndBlock" THEN {}
             ELSE {"users"} \cap (IF es.bank.users # post.bank.users THEN {"users"} ELSE {})
-      f4 == IF rec.ev \in {"RealSlash", "Unjail", "Accrue", "AccrueFees", "NativeDelegate", "NativeUndelegate", "StakingEndBlock", "BeginBlock", "Donate", "ExportImport"} THEN {}
+      f4 == IF rec.ev \in {"RealSlash", "Unjail", "Accrue", "AccrueFees", "NativeDelegate", "NativeUndelegate", "StakingEndBlock", "BeginBlock", "Donate", "ExportImport", "ForkImport"} THEN {}
             ELSE IF r.ok # rec.res.ok THEN {"ok"} ELSE {}
   IN  f1 \cup f2 \cup f3 \cup f4
 
